@@ -15,13 +15,15 @@ def laminate_F(d, fsdt_K=5 / 6.):
         F = np.zeros((6, 6)); F[:3, :3] = A; F[3:, 3:] = Dm
         return F, np.abs(F)
     n = len(d['stack'])
-    F, S = clt.ABD6(d['stack'], [d['plyt']] * n, [d['laminaprop']] * n, 0.)
+    F, S = clt.ABD6(d['stack'], [d['plyt']] * n, [d['laminaprop']] * n, 0., force_ortho=bool(d.get('force_ortho')))
     if 'fsdt' in d['model']:
         o = clt.abd(d['stack'], [d['plyt']] * n, [d['laminaprop']] * n, 0.)
         F8 = np.zeros((8, 8)); S8 = np.zeros((8, 8))
         F8[:6, :6] = F; S8[:6, :6] = S
         # package ordering of the shear block: ABDE[6:, 6:] = [[Q44, Q45], [Q45, Q55]] integrated, times K
         F8[6:, 6:] = o['E'] * fsdt_K; S8[6:, 6:] = o['SE'] * fsdt_K
+        if d.get('force_ortho'):
+            F8[6, 7] = F8[7, 6] = 0.0
         return F8, S8
     return F, S
 
